@@ -559,6 +559,7 @@ func (w *World) lsOp(rc *Recorder, op string) error {
 
 // closeLitestream: Close; a nil return is an acknowledgement.
 func (w *World) closeLitestream(rc *Recorder) {
+	defer func() { lastTrace = w.cfg.String() + " | " + strings.Join(w.trace, " ") }()
 	ctx, cancel := context.WithTimeout(ctxb, 60*time.Second)
 	defer cancel()
 	if err := w.ldb.Close(ctx); err == nil {
@@ -762,6 +763,9 @@ func runC01(rc *Recorder, dir string, rng *rand.Rand, steps int) error {
 	return nil
 }
 
+// lastTrace is the history of the run that just finished (config + op tokens).
+var lastTrace string
+
 func main() {
 	slog.SetDefault(QuietLogger())
 	fl := flag.NewFlagSet("db", flag.ContinueOnError)
@@ -770,7 +774,7 @@ func main() {
 	steps := fl.Int("steps", 40, "steps per history")
 	seed := fl.Int64("seed", 1, "PRNG seed")
 	mode := fl.String("mode", "c01", "c01 | c02 | c04")
-	replay := fl.String("replay", "", "history to replay: '<seed> <index>'")
+	only := fl.Int("only", -1, "run only the history with this index (replay)")
 	if err := fl.Parse(os.Args[1:]); err != nil {
 		os.Exit(2)
 	}
@@ -778,7 +782,6 @@ func main() {
 		fmt.Fprintln(os.Stderr, "-out required")
 		os.Exit(2)
 	}
-	_ = replay
 	cw, err := NewCaseWriter(filepath.Join(*out, "cases.txt"))
 	if err != nil {
 		fmt.Fprintln(os.Stderr, err)
@@ -792,12 +795,19 @@ func main() {
 	}
 	defer os.RemoveAll(base)
 	var histories []string
+	distinct := map[[32]byte]bool{}
+	nontrivial := 0
 	for i := 0; i < *n; i++ {
+		if *only >= 0 && i != *only {
+			continue
+		}
 		// every history has its own PRNG derived from (seed, index) so it replays alone
 		rng := NewRand(*seed*1000003 + int64(i))
 		dir := filepath.Join(base, fmt.Sprintf("h%d", i))
 		os.MkdirAll(dir, 0o755)
 		nv := len(rc.violations)
+		acksBefore := rc.acks
+		lastTrace = ""
 		var err error
 		switch *mode {
 		case "c01":
@@ -815,15 +825,29 @@ func main() {
 				m["seed"], m["index"], m["mode"] = *seed, i, *mode
 			}
 		}
-		if len(histories) < 3 {
-			histories = append(histories, fmt.Sprintf("%s#%d", *mode, i))
+		if lastTrace != "" {
+			h := sha256.Sum256([]byte(lastTrace))
+			if !distinct[h] {
+				distinct[h] = true
+				if rc.acks > acksBefore {
+					nontrivial++
+				}
+			}
+			if len(histories) < 3 {
+				t := lastTrace
+				if len(t) > 700 {
+					t = t[:700] + " ..."
+				}
+				histories = append(histories, fmt.Sprintf("%s#%d: %s", *mode, i, t))
+			}
 		}
 		os.RemoveAll(dir)
 	}
 	cw.Close()
 	st := cw.Stats()
 	st.ImplViolations = rc.violations
-	st.Extra = map[string]any{"acks": rc.acks, "restores": rc.restores, "sync_steps": rc.steps, "op_counts": rc.opCounts, "histories": *n}
+	st.Samples = append(st.Samples, histories...)
+	st.Extra = map[string]any{"distinct_histories": len(distinct), "nontrivial_histories": nontrivial, "acks": rc.acks, "restores": rc.restores, "sync_steps": rc.steps, "op_counts": rc.opCounts, "histories": *n}
 	if err := WriteJSON(filepath.Join(*out, "stats.json"), st); err != nil {
 		fmt.Fprintln(os.Stderr, err)
 		os.Exit(3)
